@@ -110,6 +110,13 @@ class Build:
 
 
 def rm_tree(path):
+    # an engine that was killed may have left mounts behind (C09 bind-mount flavour)
+    try:
+        mps = [l.split()[1] for l in open("/proc/mounts") if l.split()[1].startswith(path + "/")]
+        for mp in sorted(mps, key=len, reverse=True):
+            subprocess.run(["umount", "-l", mp], capture_output=True)
+    except Exception:
+        pass
     # children may have created files as uid 65534 or mode 000
     subprocess.run(["chmod", "-R", "u+rwx", path], capture_output=True)
     shutil.rmtree(path, ignore_errors=True)
